@@ -65,6 +65,8 @@ pub struct CmdRec {
     pub in_poll: bool,
     pub parent: Option<usize>,
     pub depth: usize,
+    /// Applied directly from inside the issuing body (exclusive systems), not queued.
+    pub direct_in_body: bool,
 }
 
 #[derive(Clone, Debug)]
@@ -462,6 +464,7 @@ pub fn analyze<'a>(prog: &'a Program, tr: &'a [Ev]) -> Analysis<'a> {
                     in_poll,
                     parent: None,
                     depth: 0,
+                    direct_in_body: false,
                 });
                 if let Some(i) = a.run_idx.get(run) {
                     a.runs[*i].cmds.push(idx);
@@ -480,6 +483,7 @@ pub fn analyze<'a>(prog: &'a Program, tr: &'a [Ev]) -> Analysis<'a> {
             Ev::Pre { cmd, .. } => {
                 if let Some(i) = a.cmd_idx.get(cmd).copied() {
                     a.cmds[i].pre = Some(pos);
+                    a.cmds[i].direct_in_body = a.run_idx.get(&a.cmds[i].run).map(|ri| a.runs[*ri].body_end.is_none()).unwrap_or(false);
                     a.cmds[i].parent = encl_here.map(|c| c as usize);
                     a.cmds[i].depth = stack.len();
                     stack.push(i as u32);
